@@ -17,6 +17,7 @@ def run(ctx):
     from checks import lexpart
     lexpart.run_lexer_part(ctx)
     lrfamily.driver_layer(ctx, "C08")
+    lrfamily.driver_layer(ctx, "C08", grammars=ctx.vol(40, 400), inputs=ctx.vol(50, 100), exh=0, extra=["bang=always"], tag="recovery_focus")
     lrfamily.compiled_layer(ctx, "C08")
     ctx.coverage.setdefault("trusted_base", []).extend(lrfamily.TRUST_LR)
     ctx.coverage["rule"] = ("grammars from LR-biased templates, mutations and random CFGs x {lane-table, canonical LR(1), LALR}; "
